@@ -246,7 +246,15 @@ def _convert_call(node: ast.Call) -> libsbml.ASTNode:
 
 
 def _convert_compare(node: ast.Compare) -> libsbml.ASTNode:
-    # FIXME: handle cases such as x < y < z
+    # Chains such as x < y <= z are the conjunction of their pairwise comparisons
+    if len(node.ops) > 1:
+        sbml_node = libsbml.ASTNode(libsbml.AST_LOGICAL_AND)
+        operands = [node.left, *node.comparators]
+        for op, lhs, rhs in zip(node.ops, operands[:-1], operands[1:], strict=True):
+            sbml_node.addChild(
+                _convert_compare(ast.Compare(left=lhs, ops=[op], comparators=[rhs]))
+            )
+        return sbml_node
 
     left = _convert_node(node.left)
     right = _convert_node(node.comparators[0])
